@@ -47,7 +47,7 @@ def run(ctx):
         prog = []
         for t in tests:
             prog += [{"op": s["op"], "a": s["a"]} for s in t["steps"]]
-        events = run_harness("regions", prog, os.path.join(WORK, "gen_regions.ev.ndjson"))
+        events = run_harness("regions", prog, os.path.join(WORK, "gen_regions.ev.ndjson"), ctx=ctx)
         judge_chunks(ctx, "gent_regions", events)
         ctx.cov["gen_tests_replayed"] += len(tests)
         ctx.cov["traces_validated_against_impl"] += len(tests)
@@ -84,7 +84,7 @@ def hi(ctx):
             prog.append({"op": s["op"], "a": a})
     # region ids shift when a creation is refused: let the harness tell us, and drop histories whose later
     # steps refer to regions that were never created
-    events = run_harness("regions", prog, os.path.join(WORK, "hi_regions.ev.ndjson"))
+    events = run_harness("regions", prog, os.path.join(WORK, "hi_regions.ev.ndjson"), ctx=ctx)
     keep = []
     for h in split_events(events):
         if all(e["r"].get("k") != "skipref" for e in h):
